@@ -39,10 +39,7 @@ package pc16
 import (
 	"bytes"
 	"encoding/binary"
-	"encoding/json"
 	"fmt"
-	"os"
-	"path/filepath"
 	"reflect"
 	"runtime"
 	"sort"
@@ -1553,33 +1550,17 @@ func checkSubmit(c SubmitCase) (res vprop.Result) {
 	return res
 }
 
-func TestC16(t *testing.T) {
-	vprop.Run(t, vprop.Spec[SubmitCase]{
+func c16Spec() vprop.Spec[SubmitCase] {
+	return vprop.Spec[SubmitCase]{
 		ID:      "C16",
 		Gen:     genCase,
 		Check:   checkSubmit,
 		Journal: true,
-	})
+	}
 }
 
+func TestC16(t *testing.T) { vprop.Run(t, c16Spec()) }
+
 // FuzzC16 is the byte-driven arm (thorough tier): the same generator and oracle driven by go's native coverage-guided
-// fuzzer through rapid.MakeFuzz.
-func FuzzC16(f *testing.F) {
-	f.Fuzz(rapid.MakeFuzz(func(t *rapid.T) {
-		c := genCase(t)
-		res := checkSubmit(c)
-		for _, v := range res.Violations {
-			if vprop.IsKnown("C16", v.Rule) {
-				continue
-			}
-			path := filepath.Join(os.Getenv("VERIF_REPLAY_OUT_DIR"), "C16-fuzz.json")
-			if os.Getenv("VERIF_REPLAY_OUT_DIR") == "" {
-				path = filepath.Join(os.TempDir(), "C16-fuzz.json")
-			}
-			cb, _ := json.Marshal(c)
-			out, _ := json.MarshalIndent(map[string]any{"property": "C16", "rule": v.Rule, "message": v.Msg, "case": json.RawMessage(cb)}, "", " ")
-			_ = os.WriteFile(path, out, 0o644)
-			t.Fatalf("VERIF-FAIL property=C16 rule=%s replay=%s :: %s", v.Rule, path, v.Msg)
-		}
-	}))
-}
+// fuzzer through rapid.MakeFuzz (vprop.Fuzz supplies the long seed corpus rapid needs).
+func FuzzC16(f *testing.F) { vprop.Fuzz(f, c16Spec()) }
